@@ -385,17 +385,19 @@ def type_sections(chk, b, libs, wd, need_leaves):
     if not summ or summ[0]["events"] != len(evs):
         raise vlib.MachineryError("TraceSefoCodec did not reach the end of the trace\n" + r.out[-2000:])
     seen = set()
+    nbad = 0
     for l in r.printed:
         if isinstance(l, str) and l.startswith("BAD "):
             bad = json.loads(l[4:])
             ev = evs[bad["l"] - 1]
             if ev["ev"] == "Tags":
                 raise vlib.MachineryError("SefoCodec.tla and the compiled absyn.h / tform.h disagree: " + bad["why"])
+            nbad += 1
             chk.violation("type section of %s: %s" % (ev["lib"], bad["why"]), {"lib": ev["lib"], "why": bad["why"], "bytes": ev["bytes"][:400]},
                           key={"codec": "sefo", "what": bad["why"][:40]})
         elif isinstance(l, str) and l.startswith("LEAVES "):
             seen |= set(json.loads(l[7:])["leaves"])
-    if not set(need_leaves) <= seen:
+    if not set(need_leaves) <= seen and nbad == 0 and not r.violated:
         raise vlib.MachineryError("type sections of the built libraries hold the leaf kinds %s only" % sorted(seen))
     chk.traces += len(libs)
     chk.extra["type_sections"] = {"validated": len(libs), "leaf_kinds": sorted(seen)}
